@@ -32,10 +32,16 @@
 (*   p    path of the field (relative to the indexed element)              *)
 (*   fam  element variants the selector must answer for                    *)
 (*   gfam element variants for which it may answer or report not-found     *)
-(* An index >= the length of the list, or an element of another variant,   *)
-(* gives the list's not-found panic.  A field that the element's variant   *)
-(* declares ABSENT (written as zero / empty on the wire, TxFormat VA)      *)
-(* may be answered with what the wire holds or reported not-found.         *)
+(*   nf   the panic reasons admitted when the indexed element is not what  *)
+(*        the selector is for (default: the list's not-found reason)       *)
+(* An element of another variant gives a reason of nf.  An index >= the    *)
+(* length of the list gives a reason of nf or InvalidMetadataIdentifier    *)
+(* (the instruction-set text lists the panic CONDITIONS of GTF without     *)
+(* naming the reason: which of the applicable reasons is reported for an   *)
+(* absent index is the implementation's choice; that the query fails is    *)
+(* not).  A field that the element's variant declares ABSENT (written as   *)
+(* zero / empty on the wire, TxFormat VA) may be answered with what the    *)
+(* wire holds or refused with a reason of nf.                              *)
 (*                                                                         *)
 (* A pointer answer is an ADDRESS: tx_offset + OffsetOf(path) computed     *)
 (* from the format; the effect carries `deref` = <<address, canonical      *)
@@ -55,8 +61,16 @@ KS == {"Script"}  KC == {"Create"}  KU == {"Upload"}  KB == {"Blob"}  KG == {"Up
 Rest(k) == AllKinds \ k
 IMI == "InvalidMetadataIdentifier"
 
-Row(s, n, k, g, sc, r, p, fam, gfam) ==
-    s :> [n |-> n, k |-> k, g |-> g, sc |-> sc, r |-> r, p |-> p, fam |-> fam, gfam |-> gfam]
+\* the list a scope indexes and its not-found panic
+ScopeList(sc) == CASE sc = "input" -> "inputs" [] sc = "output" -> "outputs" [] sc = "witness" -> "witnesses"
+                   [] sc = "slot" -> "storage_slots" [] sc = "proof" -> "proof_set"
+ScopeMiss(sc) == CASE sc = "input" -> "InputNotFound" [] sc = "output" -> "OutputNotFound" [] sc = "witness" -> "WitnessNotFound"
+                   [] sc = "slot" -> "StorageSlotsNotFound" [] sc = "proof" -> "ProofInUploadNotFound"
+ListScopes == {"input", "output", "witness", "slot", "proof"}
+
+RowNf(s, n, k, g, sc, r, p, fam, gfam, nf) ==
+    s :> [n |-> n, k |-> k, g |-> g, sc |-> sc, r |-> r, p |-> p, fam |-> fam, gfam |-> gfam, nf |-> nf]
+Row(s, n, k, g, sc, r, p, fam, gfam) == RowNf(s, n, k, g, sc, r, p, fam, gfam, IF sc \in ListScopes THEN {ScopeMiss(sc)} ELSE {})
 TxR(s, n, k, g, r, p) == Row(s, n, k, g, "tx", r, p, {}, {})
 InR(s, n, fam, r, p)  == Row(s, n, AllKinds, {}, "input", r, p, fam, {})
 OutR(s, n, fam, gfam, r, p) == Row(s, n, AllKinds, {}, "output", r, p, fam, gfam)
@@ -123,7 +137,10 @@ GtfTable ==
     OutR(769, "OutputCoinTo", {"Coin", "Change"}, {"Variable"}, "ptr", <<"to">>) @@
     OutR(770, "OutputCoinAmount", {"Coin"}, {"Change", "Variable"}, "val", <<"amount">>) @@
     OutR(771, "OutputCoinAssetId", {"Coin", "Change"}, {"Variable"}, "ptr", <<"asset_id">>) @@
-    OutR(772, "OutputContractInputIndex", {"Contract"}, {}, "val", <<"input_index">>) @@
+    \* (the value is an INPUT index: an output that is absent or not a contract output may be reported as either list's
+    \*  not-found reason or as an invalid identifier)
+    RowNf(772, "OutputContractInputIndex", AllKinds, {}, "output", "val", <<"input_index">>, {"Contract"}, {},
+          {"OutputNotFound", "InputNotFound", IMI}) @@
     OutR(775, "OutputContractCreatedContractId", {"ContractCreated"}, {}, "ptr", <<"contract_id">>) @@
     OutR(776, "OutputContractCreatedStateRoot", {"ContractCreated"}, {}, "ptr", <<"state_root">>) @@
     \* ---- 0x4__: witnesses ----
@@ -158,12 +175,6 @@ GtfTable ==
 GtfSelectors == DOMAIN GtfTable
 PointerKinds == {"ptr", "wdata"}
 
-\* the list a scope indexes and the panic for an index / variant that is not there
-ScopeList(sc) == CASE sc = "input" -> "inputs" [] sc = "output" -> "outputs" [] sc = "witness" -> "witnesses"
-                   [] sc = "slot" -> "storage_slots" [] sc = "proof" -> "proof_set"
-ScopeMiss(sc) == CASE sc = "input" -> "InputNotFound" [] sc = "output" -> "OutputNotFound" [] sc = "witness" -> "WitnessNotFound"
-                   [] sc = "slot" -> "StorageSlotsNotFound" [] sc = "proof" -> "ProofInUploadNotFound"
-ListScopes == {"input", "output", "witness", "slot", "proof"}
 
 \* ---- outcomes: what the instruction may put into $rA, or the panic ----
 Ok(val)          == [ok |-> TRUE, val |-> val, ptr |-> FALSE, bytes |-> "", why |-> ""]
@@ -207,17 +218,18 @@ PolicyAnswer(row, tx) ==
     LET i == PolicyIdx(row.p[1]) IN
     IF TX!BitSet(tx.policies.mask, i - 1) THEN Ok(tx.policies.vals[i]) ELSE Fail("PolicyIsNotSet")
 
+Fails(reasons) == {Fail(r) : r \in reasons}
 ElemAnswers(row, tx, txoff, b) ==
     LET lst  == tx[ScopeList(row.sc)]
-        miss == Fail(ScopeMiss(row.sc))
-    IN IF ~BN!Lt(b, BN!FromNat(Len(lst))) THEN {miss}
+        miss == Fails(row.nf)
+    IN IF ~BN!Lt(b, BN!FromNat(Len(lst))) THEN miss \cup {Fail(IMI)}
        ELSE LET i  == BN!ToNat(b)
                 el == lst[i + 1]
                 typed == row.sc \in {"input", "output"}
-            IN IF typed /\ el.kind \notin row.fam \cup row.gfam THEN {miss}
+            IN IF typed /\ el.kind \notin row.fam \cup row.gfam THEN miss
                ELSE LET absent == row.sc = "input" /\ row.p # <<>> /\ row.p[1] \in TX!Variant(TX!InputT, el.kind).absent
                         gray   == absent \/ (typed /\ el.kind \in row.gfam)
-                    IN (IF gray THEN {miss} ELSE {})
+                    IN (IF gray THEN miss ELSE {})
                        \cup {FieldAnswer(row.r, tx, txoff, <<ScopeList(row.sc), i>> \o row.p, row.p = <<>>)}
 
 \* the admissible outcomes of GTF with selector sel and index b (a BigNat) on transaction tx placed at address txoff
